@@ -1,2 +1,207 @@
+import Tapeverif.Lemmas.Asm
+import Tapeverif.Gen.Tables
+/-! # C12 — decoding always terminates, moves forward, and is inverted by encoding -/
 namespace TV.C12
+
+open Asm
+
+/-- C12.2 whatever `decodeOperands` reads, re-encoding gives back exactly the bytes it consumed,
+    and the fields fit their layout (so the bytecode determines the instruction and vice versa). -/
+theorem encode_decode_operands (c : UInt8) (b : Bytes) (fs : List Bytes) (r : Bytes)
+    (h : decodeOperands c b = some (fs, r)) :
+    encodeOperands c fs ++ r = b ∧ wellFormed ⟨c, fs⟩ = true := by
+  unfold decodeOperands at h
+  unfold encodeOperands wellFormed
+  cases hk : kindOf c.toNat <;> simp only [hk] at h ⊢
+  · -- none
+    simp only [Option.some.injEq, Prod.mk.injEq] at h
+    obtain ⟨rfl, rfl⟩ := h; simp
+  · -- u1
+    cases h1 : takeExact 1 b with
+    | none => simp [h1] at h
+    | some p =>
+      obtain ⟨x, r1⟩ := p
+      simp [h1] at h; obtain ⟨rfl, rfl⟩ := h
+      obtain ⟨hb, hl⟩ := takeExact_spec h1
+      simp [hb, hl]
+  · -- sized1
+    cases h1 : readSized 1 b with
+    | none => simp [h1] at h
+    | some p =>
+      obtain ⟨v, r1⟩ := p
+      simp [h1] at h; obtain ⟨rfl, rfl⟩ := h
+      obtain ⟨hb, hl⟩ := readSized_spec h1
+      simp [hb]; simpa using hl
+  · -- sized2
+    cases h1 : readSized 2 b with
+    | none => simp [h1] at h
+    | some p =>
+      obtain ⟨v, r1⟩ := p
+      simp [h1] at h; obtain ⟨rfl, rfl⟩ := h
+      obtain ⟨hb, hl⟩ := readSized_spec h1
+      simp [hb]; simpa using hl
+  · -- writeCache
+    cases h1 : readSized 1 b with
+    | none => simp [h1] at h
+    | some p =>
+      obtain ⟨k, r1⟩ := p
+      cases h2 : takeExact 1 r1 with
+      | none => simp [h1, h2] at h
+      | some q =>
+        obtain ⟨n, r2⟩ := q
+        simp [h1, h2] at h; obtain ⟨rfl, rfl⟩ := h
+        obtain ⟨hb, hl⟩ := readSized_spec h1
+        obtain ⟨hb2, hl2⟩ := takeExact_spec h2
+        simp [hb, hb2, hl2]; simpa using hl
+  · -- f4
+    cases h1 : takeExact 4 b with
+    | none => simp [h1] at h
+    | some p =>
+      obtain ⟨x, r1⟩ := p
+      simp [h1] at h; obtain ⟨rfl, rfl⟩ := h
+      obtain ⟨hb, hl⟩ := takeExact_spec h1
+      simp [hb, hl]
+  · -- swap
+    cases h1 : takeExact 1 b with
+    | none => simp [h1] at h
+    | some p =>
+      obtain ⟨x, r1⟩ := p
+      cases h2 : takeExact 1 r1 with
+      | none => simp [h1, h2] at h
+      | some q =>
+        obtain ⟨y, r2⟩ := q
+        simp [h1, h2] at h; obtain ⟨rfl, rfl⟩ := h
+        obtain ⟨hb, hl⟩ := takeExact_spec h1
+        obtain ⟨hb2, hl2⟩ := takeExact_spec h2
+        simp [hb, hb2, hl, hl2]
+  · -- multisig
+    cases h1 : takeExact 1 b with
+    | none => simp [h1] at h
+    | some p =>
+      obtain ⟨x, r1⟩ := p
+      cases h2 : takeExact 1 r1 with
+      | none => simp [h1, h2] at h
+      | some q =>
+        obtain ⟨y, r2⟩ := q
+        cases h3 : takeExact 1 r2 with
+        | none => simp [h1, h2, h3] at h
+        | some q3 =>
+          obtain ⟨z, r3⟩ := q3
+          simp [h1, h2, h3] at h; obtain ⟨rfl, rfl⟩ := h
+          obtain ⟨hb, hl⟩ := takeExact_spec h1
+          obtain ⟨hb2, hl2⟩ := takeExact_spec h2
+          obtain ⟨hb3, hl3⟩ := takeExact_spec h3
+          simp [hb, hb2, hb3, hl, hl2, hl3]
+  · -- bytes32
+    cases h1 : takeExact 32 b with
+    | none => simp [h1] at h
+    | some p =>
+      obtain ⟨x, r1⟩ := p
+      simp [h1] at h; obtain ⟨rfl, rfl⟩ := h
+      obtain ⟨hb, hl⟩ := takeExact_spec h1
+      simp [hb, hl]
+  · -- def
+    cases h1 : takeExact 1 b with
+    | none => simp [h1] at h
+    | some p =>
+      obtain ⟨hd, r1⟩ := p
+      cases h2 : readSized 2 r1 with
+      | none => simp [h1, h2] at h
+      | some q =>
+        obtain ⟨body, r2⟩ := q
+        simp [h1, h2] at h; obtain ⟨rfl, rfl⟩ := h
+        obtain ⟨hb, hl⟩ := takeExact_spec h1
+        obtain ⟨hb2, hl2⟩ := readSized_spec h2
+        simp [hb, hb2, hl]; simpa using hl2
+  · -- body1
+    cases h1 : readSized 2 b with
+    | none => simp [h1] at h
+    | some p =>
+      obtain ⟨v, r1⟩ := p
+      simp [h1] at h; obtain ⟨rfl, rfl⟩ := h
+      obtain ⟨hb, hl⟩ := readSized_spec h1
+      simp [hb]; simpa using hl
+  · -- body2
+    cases h1 : readSized 2 b with
+    | none => simp [h1] at h
+    | some p =>
+      obtain ⟨b1, r1⟩ := p
+      cases h2 : readSized 2 r1 with
+      | none => simp [h1, h2] at h
+      | some q =>
+        obtain ⟨b2, r2⟩ := q
+        simp [h1, h2] at h; obtain ⟨rfl, rfl⟩ := h
+        obtain ⟨hb, hl⟩ := readSized_spec h1
+        obtain ⟨hb2, hl2⟩ := readSized_spec h2
+        simp [hb, hb2]
+        exact ⟨by simpa using hl, by simpa using hl2⟩
+
+theorem encode_decode_next (b : Bytes) (i : Instr) (r : Bytes) (h : decodeNext b = some (i, r)) :
+    encodeInstr i ++ r = b ∧ wellFormed i = true := by
+  cases b with
+  | nil => simp [decodeNext] at h
+  | cons c t =>
+    simp only [decodeNext, Option.map_eq_some_iff] at h
+    obtain ⟨⟨fs, r'⟩, hd, heq⟩ := h
+    simp only [Prod.mk.injEq] at heq
+    obtain ⟨rfl, rfl⟩ := heq
+    obtain ⟨h1, h2⟩ := encode_decode_operands c t fs r' hd
+    exact ⟨by simp [encodeInstr, h1], h2⟩
+
+/-- C12.1 the decoder never reads backwards and always makes progress: what is left after one
+    instruction is a proper suffix of the input. -/
+theorem decodeNext_progress (b : Bytes) (i : Instr) (r : Bytes) (h : decodeNext b = some (i, r)) :
+    r.length < b.length ∧ ∃ pre, b = pre ++ r := by
+  obtain ⟨h1, _⟩ := encode_decode_next b i r h
+  refine ⟨?_, encodeInstr i, h1.symm⟩
+  rw [← h1]; simp [encodeInstr]; omega
+
+/-- C12.2 for every byte string that decodes, re-encoding the decoded sequence reproduces the
+    identical bytes (all well-formed bytecode, not only compiler output). -/
+theorem encode_decode_seq : ∀ (fuel : Nat) (b : Bytes) (is : List Instr),
+    decodeSeq fuel b = some is → encodeSeq is = b ∧ ∀ i ∈ is, wellFormed i = true := by
+  intro fuel
+  induction fuel with
+  | zero =>
+    intro b is h
+    cases b with
+    | nil => simp [decodeSeq] at h; subst h; simp [encodeSeq]
+    | cons c t => simp [decodeSeq] at h
+  | succ n ih =>
+    intro b is h
+    cases b with
+    | nil => simp [decodeSeq] at h; subst h; simp [encodeSeq]
+    | cons c t =>
+      simp only [decodeSeq] at h
+      cases hd : decodeNext (c :: t) with
+      | none => simp [hd] at h
+      | some p =>
+        obtain ⟨i, r⟩ := p
+        cases hr : decodeSeq n r with
+        | none => simp [hd, hr] at h
+        | some rest =>
+          simp [hd, hr] at h
+          subst h
+          obtain ⟨h1, h2⟩ := encode_decode_next _ i r hd
+          obtain ⟨h3, h4⟩ := ih r rest hr
+          refine ⟨?_, ?_⟩
+          · simp only [encodeSeq, List.flatMap_cons] at h3 ⊢
+            rw [h3, h1]
+          · intro j hj
+            rcases List.mem_cons.mp hj with rfl | hj
+            · exact h2
+            · exact h4 j hj
+
+/-- table obligation: for every assigned opcode, the name, and the operand class measured on the
+    implementation's decompiler (bytes consumed on two probe patterns + line shape), equal the
+    model's (regenerated from /repo on this run) -/
+def lookupS (k : String) (l : List (String × String)) : Option String := (l.find? (·.1 = k)).map (·.2)
+
+theorem decompiler_classes_match :
+    Gen.opcodes.all (fun (c, n) => opName c = n ∧ lookupS n Gen.decompilerClass = some (kindOf c).name) = true := by
+  decide +kernel
+
+/-- Non-vacuity: a nested program decodes and re-encodes. -/
+example : (decodeAll [43, 0, 2, 1, 48, 0]).map encodeSeq = some [43, 0, 2, 1, 48, 0] := by decide
+
 end TV.C12
